@@ -46,7 +46,7 @@ def cna(classes, style, extra=None, log2=None):
         if extra:
             r.update(extra(i, c))
         rows.append(r)
-    return make_ga("CopyNumArray", rows, {"_classes": [c if isinstance(c, str) else c[0] for c in classes], "sample_id": "S"})
+    return make_ga("CopyNumArray", rows, {"_classes": [c if isinstance(c, str) else c[0] for c in classes], "sample_id": "S"}, index="any")          # (the caller's table may be a filtered one: any index)
 
 
 def ref_exp_oracle(c, P, hap, fem, par):
